@@ -6,15 +6,15 @@ out=$1; n=$2; shift; shift
 ids=("$@")
 for k in $(seq 1 $n); do
   (
-    rm -rf /tmp/mm_$k; mkdir -p /tmp/mm_$k; cp -a /verif /tmp/mm_$k/verif; rm -rf /tmp/mm_$k/verif/.git
+    rm -rf /tmp/${MM_PREFIX:-mm}_$k; mkdir -p /tmp/${MM_PREFIX:-mm}_$k; cp -a /verif /tmp/${MM_PREFIX:-mm}_$k/verif; rm -rf /tmp/${MM_PREFIX:-mm}_$k/verif/.git
     i=0
     for m in "${ids[@]}"; do
       i=$((i+1)); [ $(( (i-1) % n + 1 )) = $k ] || continue
       p=${m%_*}
-      r=$(VERIF_DIR=/tmp/mm_$k/verif /verif/tools/try_mutant.sh /verif/seeded/$m/patch.diff $p 2>&1 | grep -v conda | grep "VIOLATION\|ok \|does not apply" | head -1)
+      r=$(VERIF_DIR=/tmp/${MM_PREFIX:-mm}_$k/verif /verif/tools/try_mutant.sh /verif/seeded/$m/patch.diff $p 2>&1 | grep -v conda | grep "VIOLATION\|ok \|does not apply" | head -1)
       echo "$m $r" >> $out
     done
-    rm -rf /tmp/mm_$k
+    rm -rf /tmp/${MM_PREFIX:-mm}_$k
   ) &
 done
 wait
